@@ -20,7 +20,7 @@ package absnfs
 //@ specdef inAuxGroups(ctx *AuthContext, gid uint32) bool = ctx.AuthSys != nil && exists(j, 0, len(ctx.AuthSys.AuxGIDs), ctx.AuthSys.AuxGIDs[j] == gid)
 
 // A handler's server is wired up the way New/NewServer/SetHandler leave it.
-//@ specdef srvOK(h *NFSProcedureHandler) bool = h != nil && h.server != nil && h.server.handler != nil && acInv(h.server.handler.attrCache) && h.server.handler.fileMap != nil && h.server.handler.fileMap.handles != nil && curPolicy(h.server.handler) != nil && curTuning(h.server.handler) != nil && dirCacheApart(h.server.handler)
+//@ specdef srvOK(h *NFSProcedureHandler) bool = h != nil && h.server != nil && h.server.handler != nil && acInv(h.server.handler.attrCache) && h.server.handler.fileMap != nil && h.server.handler.fileMap.handles != nil && curPolicy(h.server.handler) != nil && curTuning(h.server.handler) != nil && dirCacheApart(h.server.handler) && acIds(h.server.handler.attrCache)
 
 //@ func NFSProcedureHandler.handleAccess
 //@ prop C12
